@@ -93,6 +93,10 @@ def _systems():
     for lit in ("None", "0", "''", "[]", "False"):
         ld = ("ds", "loader", {"params": [("opt", "A")], "callback": ("fn", f"f_const:{lit}"), "effects": ["el"]})
         S.append((f"falsy-value:{lit}", [("ds", "use", {"params": [ld, ("ds", "mid", {"params": [ld]})]}), ld], [A3]))
+    # a dataset that reads the whole dictionary: its key set is assembled in dictionary order, so
+    # only a canonical (sorted) fingerprint makes a re-ordered repeat a cache hit
+    S.append(("all-options", [("ds", "whole", {"params": [("all",)]})],
+              [("Ka", [1]), ("Kb", [ABSENT, 2]), ("Kc", [3]), ("Kd", [ABSENT, 4]), ("Ke", [5]), ("Kf", [6]), ("Kg", [7]), ("Kh", [8])]))
     three = ("ds", "three", {"params": [inner, mid2, ("ds", "leaf3", {"params": [("opt", "C", ("val", 0))]})]})
     S.append(("three-deps", [three], [A2, ("C", [ABSENT, 1])]))
     return S
@@ -114,6 +118,7 @@ def cases(tier, seed):
         out.append(("sys", label, entries, spec, depth))
     for first in range(len(DYN_ACTIONS)):
         out.append(("dyn", first, 4 if tier == "quick" else 5))
+    out.append(("router",))
     return out
 
 
@@ -164,7 +169,14 @@ def variant(o, v):
     if v in (1, 2):
         o.update(copy.deepcopy(JUNKS[v]))
         return o
-    return {k: o[k] for k in reversed(list(o.keys()))}
+    keys = list(o.keys())
+    if v == 4:  # rotated
+        keys = keys[3:] + keys[:3]
+    elif v == 5:  # interleaved
+        keys = keys[::2] + keys[1::2]
+    else:
+        keys = list(reversed(keys))
+    return {k: o[k] for k in keys}
 
 
 def _cached_names(entries):
@@ -248,9 +260,82 @@ def run_dynamic(hist):
     return None, True
 
 
+def run_router(parent_cache, impl_form, hist):
+    """A router dataset (dispatch only) whose implementation is added with the overload decorator /
+    register; consumers share it in a diamond.  The implementation is a dataset of its own: its body
+    runs once per assignment of ITS options, whatever caching policy the router has."""
+    from labrea import Option, dataset
+
+    log = []
+
+    def router_body():
+        return "no-source"
+
+    factory = dataset.nocache if parent_cache == "nocache" else dataset
+    source = factory(router_body, dispatch="SRC")
+
+    def from_db(url=Option("URL")):
+        log.append(("body", "from_db"))
+        return ("db", url)
+
+    def eff(v):
+        log.append(("effect", "from_db", v))
+
+    if impl_form == "decorator-function":
+        source.overload("db")(from_db)
+    elif impl_form == "decorator-dataset":
+        source.overload("db")(dataset(from_db, effects=[eff]))
+    else:
+        source.register("db", dataset(from_db, effects=[eff]))
+
+    def left(s=source):
+        return ("left", s)
+
+    def right(s=source):
+        return ("right", s)
+
+    L, R = dataset(left), dataset(right)
+
+    def report(l=L, r=R):
+        return (l, r)
+
+    rep = dataset(report)
+    seen = set()
+    for i, url in enumerate(hist):
+        del log[:]
+        got = observe(None, lambda: rep.evaluate({"SRC": "db", "URL": url}))
+        want = (("left", ("db", url)), ("right", ("db", url)))
+        if not got.ok or got.value != want:
+            return (i, f"value {got!r}, expected {want!r}")
+        nb = sum(1 for e in log if e[:2] == ("body", "from_db"))
+        exp = 0 if url in seen else 1
+        if nb != exp:
+            return (i, f"implementation body ran {nb}x for URL={url!r}, expected {exp} (shared by two consumers, evaluated before: {url in seen}); log={log}")
+        ne = sum(1 for e in log if e[0] == "effect")
+        if impl_form != "decorator-function" and ne != exp:
+            return (i, f"implementation effect ran {ne}x, expected {exp}")
+        seen.add(url)
+    return None
+
+
 def run_case(case):
     res = {"failures": [], "states": 0, "transitions": 0, "hits": 0, "systems": 0, "nontrivial": 0, "samples": [],
            "closed": 0, "body_runs": 0, "effect_runs": 0}
+    if case[0] == "router":
+        for parent_cache in ("mem", "nocache"):
+            for impl_form in ("decorator-function", "decorator-dataset", "register"):
+                for n in (1, 2, 3):
+                    for hist in itertools.product(("u1", "u2"), repeat=n):
+                        bad = run_router(parent_cache, impl_form, hist)
+                        res["transitions"] += len(hist)
+                        res["states"] += 1
+                        if bad and not any(f["sig"].startswith(f"C02|router|{parent_cache}|{impl_form}") for f in res["failures"]):
+                            res["failures"].append({"sig": f"C02|router|{parent_cache}|{impl_form}|{list(hist)[: bad[0] + 1]}",
+                                                    "what": f"router dataset ({parent_cache}) with implementation added by {impl_form}, evaluations of URL {list(hist)[: bad[0] + 1]}",
+                                                    "detail": bad[1], "case": ("router",)})
+        res["systems"] = 1
+        res["nontrivial"] = 1
+        return res
     if case[0] == "dyn":
         _, first, L = case
         for n in range(1, L + 1):
@@ -285,7 +370,8 @@ def run_case(case):
     _, label, entries, spec, depth = case
     dicts = _dicts(spec)
     vrefs = _value_refs(spec)
-    actions = [(e, j, v) for e in range(len(entries)) for j in range(len(dicts)) for v in range(4)]
+    variants = (0, 3, 4, 5) if label == "all-options" else (0, 1, 2, 3)
+    actions = [(e, j, v) for e in range(len(entries)) for j in range(len(dicts)) for v in variants]
     w = World("cached")
     objs = [w.build(t) for t in entries]
     w.start()
